@@ -1117,8 +1117,15 @@ static void run_ms(const TC &c, Fails &F, std::string &sig) {
 }
 
 // ------------------------------------------------------------------ one case
+// the cases of a shard share one scratch directory: start every case without the files of earlier cases, so that a
+// case behaves the same when it is re-run alone (a writer that fails to truncate is decided by family ms, at=3)
+static void clean_scratch() {
+  for (const char *stem : {"t", "a", "b", "m", "r", "A", "B", "C", "D", "first", "top"})
+    for (const char *ext : {"gro", "xyz", "pdb", "dump", "dlph", "dlpc", "data", "xml"}) std::remove((std::string(stem) + "." + ext).c_str());
+}
 static bsx::Outcome run_case(const TC &c) {
   bsx::Outcome o;
+  clean_scratch();
   Fails F;
   std::string sig;
   try {
